@@ -106,6 +106,9 @@ class IkeSaController:
         small_tsr = TrafficSelector.from_network(ip_network(xfrm_acquire.sel.daddr.to_ipaddr(sel_family)),
                                                  xfrm_acquire.sel.dport, xfrm_acquire.sel.proto)
         request = ike_sa.process_acquire(small_tsi, small_tsr, xfrm_acquire.policy.index >> 3)
+        # an acquire that started nothing (unknown policy index) must not leave a never-used IKE_SA in the table
+        if request is None and ike_sa.state == IkeSa.State.INITIAL:
+            self.ike_sas.remove(ike_sa)
 
         # look for ipsec configuration
         return request, ike_sa.my_addr, ike_sa.peer_addr
